@@ -197,7 +197,7 @@ def encode_frame(fd, rnd, ctx=None):
 # ------------------------------------------------------------------ connection
 DEFAULT_QUIC_SPEC = dict(
     kind="quic", seed=1, suite=0x1301, offered=None, dcid_len=8, c_scid_len=8, s_scid_len=8,
-    retry=False, token_len=0, hs_gaps=None, early=0, early_suite=None, split_ch=0, ch_shuffle=False, split_shs=0, cert_len=600,
+    retry=False, token_len=0, hs_gaps=None, early=0, early_late=0, half_rtt=0, early_suite=None, split_ch=0, ch_shuffle=False, split_shs=0, cert_len=600,
     hs_coalesce=True,         # server Initial+Handshake (and client Initial+Handshake) in one datagram
     steps=[],                 # application-phase history, see QuicConn._step
 )
@@ -436,12 +436,27 @@ class QuicConn:
             self.s_scid = new_scid
         self._client_initials(ch, early_chunks)
         off = sum(len(c) for c in [])  # 0-RTT stream offset bookkeeping is irrelevant for the export
-        for i, d in enumerate(early_chunks):
+        # 0-RTT datagrams of the first flight; the last `early_late` of them are captured after the server's first flight (they were sent
+        # before the client had the ServerHello, so they still go to the first Destination Connection ID)
+        n_late = min(sp.get("early_late", 0), len(early_chunks))
+        late_chunks = early_chunks[len(early_chunks) - n_late:]
+        early_dcid = self.dcid_for[False]
+        for i, d in enumerate(early_chunks[:len(early_chunks) - n_late]):
             self.dgram(False, self.packet("early", False, f_stream(0, d, off=1000 * (i + 1)), parts=[("s", d)]), chunks=[d])
             self.features.add("0rtt")
         if sp["early"]:
             self.features.add("0rtt")
         self.dcid_for[False] = self.s_scid
+
+        def between_flights():
+            # 0.5-RTT data: the server may send 1-RTT packets right after its handshake flight (RFC 9001 4.1.1 / RFC 8446 4.4.4)
+            for i in range(sp.get("half_rtt", 0)):
+                d = rbytes(rnd, 25 + 9 * i)
+                self.dgram(True, self.packet("app", True, f_stream(3, d, off=500 * i), parts=[("s", d)]), chunks=[d])
+                self.features.add("half_rtt")
+            for i, d in enumerate(late_chunks):
+                self.dgram(False, self.packet("early", False, f_stream(0, d, off=50000 + 1000 * i), dcid=early_dcid, parts=[("s", d)]), chunks=[d])
+                self.features.add("0rtt_after_server_flight")
         sh = self.server_hello()
         flight = self.server_hs_flight()
         s_init = self.packet("initial", True, f_ack(0) + f_crypto(0, sh), parts=[("c", sh)])
@@ -459,11 +474,13 @@ class QuicConn:
             self.dgram(True, s_init, s_hs[0])
             for p in s_hs[1:]:
                 self.dgram(True, p)
+            between_flights()
             self.dgram(False, self.packet("initial", False, f_ack(0)), self.packet("handshake", False, f_ack(0) + f_crypto(0, c_fin), parts=[("c", c_fin)]))
         else:
             self.dgram(True, s_init)
             for p in s_hs:
                 self.dgram(True, p)
+            between_flights()
             self.dgram(False, self.packet("initial", False, f_ack(0) + b"\x00" * 1150))
             self.dgram(False, self.packet("handshake", False, f_ack(0) + f_crypto(0, c_fin), parts=[("c", c_fin)]))
         self.dgram(True, self.packet("app", True, f_handshake_done() + f_ack(0)))
